@@ -3,6 +3,7 @@ CONSTANTS
   MaxLen = 2
   BlankStops = TRUE
   EndEmptyRaises = TRUE
+  GluedKeepsWater = TRUE
   DropWaterChoices = {FALSE, TRUE}
   Emit = TRUE
 INVARIANT EmitInv
